@@ -10,9 +10,14 @@
 EXTENDS PathContain
 CONSTANTS MaxComps, MaxEntries, MCForms
 
-Opts == [preserve : BOOLEAN, explicit : BOOLEAN, chain : {FALSE}, form : MCForms, preout : BOOLEAN]
+Opts == [preserve : BOOLEAN, explicit : BOOLEAN, chain : BOOLEAN, form : MCForms, preout : BOOLEAN, skip : BOOLEAN,
+         unread : SUBSET (1..MaxEntries)]
 
-Init == \E k \in 1..MaxEntries : \E names \in [1..k -> CompSeqs(MaxComps)] : \E opt \in Opts : InitWith(names, opt)
+\* chain / skip only matter when some entry is unreadable: one representative otherwise
+Relevant(opt, k) == /\ opt.unread \subseteq 1..k
+                    /\ (opt.unread = {} => (~opt.chain /\ ~opt.skip))
+                    /\ (opt.unread # {} => (~opt.preout /\ Cardinality(opt.unread) = 1))   \* one unreadable entry, one pre-state of out
+Init == \E k \in 1..MaxEntries : \E names \in [1..k -> CompSeqs(MaxComps)] : \E opt \in Opts : Relevant(opt, k) /\ InitWith(names, opt)
 
 \* the list TLC is asked for: which names escape under which option in the unguarded deviation
 EscapingPreserve == {cs \in CompSeqs(MaxComps) : EscapesUnguarded(cs, TRUE, TRUE)}
